@@ -1,23 +1,404 @@
-//! C10: not built yet
+//! C10: the client answers inbound QoS flows correctly, surfaces every received packet exactly
+//! once and in order, treats acknowledgements it never solicited as errors (no panic, no
+//! bookkeeping change), and announces exactly the packets it writes.
+//!
+//! State-machine half (substrate S2): after every `handle_incoming_packet` /
+//! `handle_outgoing_packet` call the events the call appended to `state.events` are compared
+//! with the packet fed and the packet returned; replies are compared with what the flow rules
+//! demand in auto-ack / manual-ack mode; for unsolicited acknowledgements a projection of all
+//! bookkeeping readable from outside is compared before / after. "Written" in S2 means: returned
+//! by the call and flushed as `EventLoop::select` + `Network::readb` would flush it (request
+//! branch: at once; read batch: after the whole batch was handled).
+//!
+//! The event-loop half (wire-in vs `Incoming`, wire-out vs `Outgoing` on transports that never
+//! failed, 0-12 packets per read) plugs in through `s3_half()`.
 use super::{Meta, Prop};
-use crate::common::{Ctx, Stats};
+use crate::common::{panic_site, Ctx, Record, Stats};
+use crate::gen::cwork::{self, Proj, Step, View};
+use crate::model::mclient::InClass;
+use crate::sub::s2::{BatchEnd, Ev, OutKind, Outcome, Pk, Via};
+use serde_json::Value;
 
-fn run(_ctx: &Ctx) -> Stats {
-    let mut s = Stats::default();
-    s.inconclusive.push("check not built yet".into());
-    s
+pub const ID: &str = "C10";
+
+fn out_kind_of(p: &Pk) -> Option<(OutKind, u16)> {
+    Some(match p {
+        Pk::Publish { pkid, .. } => (OutKind::Publish, *pkid),
+        Pk::PubAck { pkid, .. } => (OutKind::PubAck, *pkid),
+        Pk::PubRec { pkid, .. } => (OutKind::PubRec, *pkid),
+        Pk::PubRel { pkid, .. } => (OutKind::PubRel, *pkid),
+        Pk::PubComp { pkid, .. } => (OutKind::PubComp, *pkid),
+        Pk::Subscribe { pkid, .. } => (OutKind::Subscribe, *pkid),
+        Pk::Unsubscribe { pkid, .. } => (OutKind::Unsubscribe, *pkid),
+        Pk::PingReq => (OutKind::PingReq, 0),
+        Pk::PingResp => (OutKind::PingResp, 0),
+        Pk::Disconnect { .. } => (OutKind::Disconnect, 0),
+        _ => return None,
+    })
+}
+
+/// fields of the bookkeeping that differ (retransmission set compared as a set: the order in
+/// which `clean()` lists it is not bookkeeping any statement constrains)
+fn proj_diff(a: &Proj, b: &Proj) -> Vec<&'static str> {
+    let mut d = vec![];
+    let sorted = |p: &Proj| {
+        let mut pubs: Vec<String> = p.held.pubs.iter().map(|x| x.show()).collect();
+        pubs.sort();
+        let mut rels = p.held.rels.clone();
+        rels.sort();
+        (pubs, rels)
+    };
+    let (ap, ar) = sorted(a);
+    let (bp, br) = sorted(b);
+    if ap != bp {
+        d.push("unacked-publishes");
+    }
+    if ar != br {
+        d.push("pending-releases");
+    }
+    if a.inflight != b.inflight {
+        d.push("inflight");
+    }
+    if a.collision != b.collision {
+        d.push("collision");
+    }
+    if a.await_pingresp != b.await_pingresp {
+        d.push("await_pingresp");
+    }
+    if a.ping_count != b.ping_count {
+        d.push("collision_ping_count");
+    }
+    d
+}
+
+pub fn oracles(v: &View, stats: &mut Stats) -> Vec<Record> {
+    let mut out = vec![];
+    match &v.step {
+        Step::Call {
+            call,
+            cls,
+            user_rec_before,
+            ..
+        } => {
+            let inbound = matches!(call.via, Via::Read | Via::ConnAck);
+            // (1) no panic / overflow trap on any broker packet
+            if inbound {
+                stats.oracle("C10/no-panic-on-broker-packet");
+                if let Outcome::Panic(p) = &call.outcome {
+                    out.push(
+                        v.tag(Record::new(
+                            ID,
+                            "panic",
+                            format!("handle_incoming_packet({}) panicked at {}: {}", call.input.show(), p.location, p.message),
+                        ))
+                        .fact("site", panic_site(p)),
+                    );
+                    return out;
+                }
+            } else if matches!(call.outcome, Outcome::Panic(_)) {
+                return out; // request-side panic: C07's
+            }
+
+            // (2) the received packet is surfaced exactly once, first, unchanged
+            if inbound {
+                stats.oracle("C10/incoming-surfaced-once");
+                let ins: Vec<&Pk> = call
+                    .events
+                    .iter()
+                    .filter_map(|e| match e {
+                        Ev::In(p) => Some(p),
+                        _ => None,
+                    })
+                    .collect();
+                let first_is_in = matches!(call.events.first(), Some(Ev::In(_)));
+                let same = match (&call.input, ins.first()) {
+                    (Pk::Other(_), Some(_)) => true,
+                    (a, Some(b)) => a == *b,
+                    _ => false,
+                };
+                if ins.len() != 1 || !first_is_in || !same {
+                    out.push(
+                        v.tag(Record::new(
+                            ID,
+                            "incoming-not-surfaced-once",
+                            format!("fed {} but the call queued {:?}", call.input.show(), call.events.iter().map(|e| e.show()).collect::<Vec<_>>()),
+                        ))
+                        .fact("surfaced", ins.len()),
+                    );
+                }
+            } else {
+                stats.oracle("C10/no-incoming-event-without-packet");
+                if call.events.iter().any(|e| matches!(e, Ev::In(_))) {
+                    out.push(v.tag(Record::new(
+                        ID,
+                        "incoming-event-without-packet",
+                        format!("no packet was read, yet an Incoming event was queued: {}", call.show()),
+                    )));
+                }
+            }
+
+            // (3) Outgoing(x) is announced iff the call returned the corresponding packet
+            stats.oracle("C10/outgoing-event-iff-packet-returned");
+            let announced: Vec<(OutKind, u16)> = call
+                .events
+                .iter()
+                .filter_map(|e| match e {
+                    Ev::Out(k, id) if *k != OutKind::AwaitAck => Some((*k, *id)),
+                    _ => None,
+                })
+                .collect();
+            let returned: Option<(OutKind, u16)> = call.outcome.packet().and_then(out_kind_of);
+            let expected: Vec<(OutKind, u16)> = returned.into_iter().collect();
+            if announced != expected {
+                let extra: Vec<&'static str> = announced.iter().filter(|a| !expected.contains(a)).map(|a| a.0.name()).collect();
+                let missing = expected.iter().any(|e| !announced.contains(e));
+                out.push(
+                    v.tag(Record::new(
+                        ID,
+                        "outgoing-event-mismatch",
+                        format!(
+                            "call returned {} but announced {:?}: {}",
+                            call.outcome.show(),
+                            announced.iter().map(|(k, id)| format!("{}({id})", k.name())).collect::<Vec<_>>(),
+                            call.show()
+                        ),
+                    ))
+                    .fact("extra_announced", extra.join(","))
+                    .fact("announcement_missing", missing)
+                    .fact("input_alias", matches!(&call.input, Pk::Publish { alias: Some(_), .. })),
+                );
+            }
+            // AwaitAck(id) is announced iff the publish was parked on that id
+            let await_ids: Vec<u16> = call
+                .events
+                .iter()
+                .filter_map(|e| match e {
+                    Ev::Out(OutKind::AwaitAck, id) => Some(*id),
+                    _ => None,
+                })
+                .collect();
+            if !await_ids.is_empty() {
+                stats.oracle("C10/awaitack-iff-parked");
+                let parked_now = matches!((&v.collision, &call.input), (Some(Pk::Publish { payload: a, pkid, .. }), Pk::Publish { payload: b, .. }) if a == b && await_ids == vec![*pkid]);
+                if !parked_now || call.outcome.packet().is_some() {
+                    out.push(v.tag(Record::new(
+                        ID,
+                        "awaitack-without-collision",
+                        format!("AwaitAck{await_ids:?} announced but collision = {:?}: {}", v.collision.as_ref().map(|p| p.show()), call.show()),
+                    )));
+                }
+            }
+
+            // (4) replies demanded by the inbound flows
+            if call.via == Via::Read && call.outcome.is_ok() {
+                let got = call.outcome.packet();
+                let mut expected: Option<Option<Pk>> = None; // Some(x) = verdict, x = demanded reply
+                match &call.input {
+                    Pk::Publish { qos, pkid, .. } => {
+                        expected = Some(if v.manual {
+                            None
+                        } else {
+                            match qos {
+                                0 => None,
+                                1 => Some(Pk::PubAck { pkid: *pkid, reason: 0 }),
+                                _ => Some(Pk::PubRec { pkid: *pkid, reason: 0 }),
+                            }
+                        });
+                    }
+                    Pk::PubRel { pkid, .. } if matches!(cls, InClass::RelKnown) => {
+                        // manual mode: completing a flow the user acknowledged is not "on its
+                        // own"; a release arriving before the user's PUBREC pits two clauses of
+                        // the statement against each other and is not judged
+                        if !v.manual || *user_rec_before {
+                            expected = Some(Some(Pk::PubComp { pkid: *pkid, reason: 0 }));
+                        } else {
+                            stats.add_extra("manual_release_before_user_pubrec_not_judged", 1);
+                        }
+                    }
+                    _ => {}
+                }
+                if let Some(exp) = expected {
+                    stats.oracle("C10/inbound-flow-reply");
+                    let ok = match (&exp, got) {
+                        (None, None) => true,
+                        (Some(e), Some(g)) => e.kind() == g.kind() && e.pkid() == g.pkid(),
+                        _ => false,
+                    };
+                    if !ok {
+                        out.push(
+                            v.tag(Record::new(
+                                ID,
+                                "inbound-reply-wrong",
+                                format!(
+                                    "{} (manual_acks={}) must be answered with {} but the call returned {}",
+                                    call.input.show(),
+                                    v.manual,
+                                    exp.as_ref().map(|p| p.show()).unwrap_or("nothing".into()),
+                                    call.outcome.show()
+                                ),
+                            ))
+                            .fact("manual", v.manual)
+                            .fact("expected", exp.as_ref().map(|p| p.kind()).unwrap_or("none"))
+                            .fact("got", got.map(|p| p.kind()).unwrap_or("none")),
+                        );
+                    }
+                }
+            }
+
+            // (5) acknowledgements nobody solicited: an error, and nothing else changes
+            if call.via == Via::Read {
+                let unsolicited = matches!(cls, InClass::AckUnsolicited);
+                let repeated = matches!(cls, InClass::AckRepeatedRec);
+                if unsolicited {
+                    stats.oracle("C10/unsolicited-ack-is-error");
+                    if call.outcome.is_ok() {
+                        out.push(
+                            v.tag(Record::new(
+                                ID,
+                                "unsolicited-ack-accepted",
+                                format!("{} answers nothing that is outstanding on this connection, yet: {}", call.input.show(), call.show()),
+                            ))
+                            .fact("packet", call.input.kind()),
+                        );
+                    }
+                }
+                if repeated {
+                    // a second PUBREC for a released id: an error, or the release again
+                    stats.oracle("C10/repeated-pubrec-harmless");
+                    let ok = match &call.outcome {
+                        Outcome::Err(_) => true,
+                        Outcome::Ok(Some(Pk::PubRel { pkid, .. })) => *pkid == call.input.pkid(),
+                        _ => false,
+                    };
+                    if !ok {
+                        out.push(v.tag(Record::new(
+                            ID,
+                            "repeated-pubrec-mishandled",
+                            format!("{}", call.show()),
+                        )));
+                    }
+                }
+                let reported_unsolicited = matches!(call.outcome, Outcome::Err(crate::sub::s2::SErr::Unsolicited(_)));
+                if unsolicited || repeated || reported_unsolicited {
+                    if let (Some(b), Some(a)) = (v.before, v.after) {
+                        stats.oracle("C10/unsolicited-leaves-bookkeeping-unchanged");
+                        let d = proj_diff(b, a);
+                        if !d.is_empty() {
+                            out.push(
+                                v.tag(Record::new(
+                                    ID,
+                                    "unsolicited-ack-changed-state",
+                                    format!(
+                                        "{} was not solicited, yet it changed {:?}: before {:?} / after {:?}",
+                                        call.input.show(),
+                                        d,
+                                        b,
+                                        a
+                                    ),
+                                ))
+                                .fact("packet", call.input.kind())
+                                .fact("changed", d.join(",")),
+                            );
+                        }
+                        // observation, not a verdict: clean() order rotated
+                        if b.held != a.held && d.is_empty() {
+                            stats.add_extra("unsolicited_ack_rotated_clean_order_not_judged", 1);
+                        }
+                    }
+                }
+            }
+        }
+        // (6) what was announced in a read batch must have been written: when the client itself
+        // raises an error later in the batch, the buffered replies die with the network while
+        // their Outgoing events stay queued for the user
+        Step::BatchEnd(end) => {
+            stats.oracle("C10/announced-replies-are-written");
+            if let BatchEnd::Dropped(buf) = end {
+                if let Some(first) = buf.first() {
+                    out.push(
+                        v.tag(Record::new(
+                            ID,
+                            "announced-not-written",
+                            format!(
+                                "{} repl{} ({}) were announced as Outgoing events but never flushed: a later packet of the same read batch made the client drop the connection (transport never failed)",
+                                buf.len(),
+                                if buf.len() == 1 { "y" } else { "ies" },
+                                buf.iter().map(|p| p.show()).collect::<Vec<_>>().join(", ")
+                            ),
+                        ))
+                        .fact("announced", first.kind())
+                        .fact("cause", "client-error-later-in-read-batch"),
+                    );
+                }
+            }
+        }
+        // (7) the queue handed to the user is exactly what the calls appended, in order
+        Step::QueueDrained { queue, reported } => {
+            stats.oracle("C10/event-queue-is-fifo-of-calls");
+            if queue != reported {
+                out.push(v.tag(Record::new(
+                    ID,
+                    "event-queue-differs",
+                    format!(
+                        "events queued for the user {:?} differ from what the calls appended {:?}",
+                        queue.iter().map(|e| e.show()).collect::<Vec<_>>(),
+                        reported.iter().map(|e| e.show()).collect::<Vec<_>>()
+                    ),
+                )));
+            }
+        }
+        _ => {}
+    }
+    out
+}
+
+/// Event-loop half: absent until `src/sub/s3.rs` exists.
+pub fn s3_half(_ctx: &Ctx, _stats: &mut Stats) {}
+
+fn run(ctx: &Ctx) -> Stats {
+    let mut stats = cwork::run_family(ctx, ID, cwork::PROFILE_C10, 15_000, 3_000_000);
+    s3_half(ctx, &mut stats);
+    stats
+}
+
+fn replay(ctx: &Ctx, doc: &Value) -> Stats {
+    cwork::replay_family(ctx, ID, doc)
 }
 
 pub fn prop() -> Prop {
     Prop {
-        id: "C10",
+        id: ID,
         meta: Meta {
             level: "exploration",
-            rule: "not built",
-            assumptions: &[],
-            floors: &[],
+            rule: "S2 half only (state machine; the event-loop half on real wire bytes is not built yet). A case is one \
+                   history of 20-160 ops against the real v4 or v5 MqttState: read batches of 0-12 broker packets of every \
+                   type (publishes QoS 0-2 with ids valid / repeated / above the limit / 65535, releases known and unknown, \
+                   acknowledgements solicited / repeated / unsolicited / wrong kind / id 0, SUBACK, UNSUBACK, PINGRESP, \
+                   server DISCONNECT, mid-session CONNACK, client-only packets; v5 reason codes and topic aliases), \
+                   interleaved with user requests and manual acknowledgements; manual_acks on in 40% of the histories. \
+                   Distinct = hash of (version, limit, manual, op-kind sequence incl. packet kinds per batch), counted \
+                   only if a named corner state was reached.",
+            assumptions: &[
+                "only packets the decoders can produce are fed (QoS>0 publishes have a non-zero id)",
+                "manual mode: PUBCOMP for a release whose publish the user acknowledged is demanded; a release arriving before the user's PUBREC is not judged (two clauses of the statement conflict)",
+                "a PUBREL for an id the client does not know and a repeated PUBREC may be answered with an error or the protocol reply; either way bookkeeping must not change",
+                "the order in which clean() lists unacknowledged publishes is not bookkeeping (3.1.1: an unsolicited PUBACK moves last_puback and rotates it; reported in the evidence, not judged)",
+                "S2: a reply of a read batch counts as written when the whole batch was handled (Network::readb feeds, EventLoop::select flushes afterwards)",
+            ],
+            floors: &[
+                ("unsolicited-ack", 6000),
+                ("repeated-pubrec", 2),
+                ("manual-mode-publish-in", 10000),
+                ("pubrel-known-id", 7000),
+                ("read-batch-over-limit", 800),
+                ("v5-topic-alias-in", 3000),
+                ("v5-failure-reason-code", 500),
+                ("C10/inbound-flow-reply", 50000),
+                ("C10/incoming-surfaced-once", 100000),
+                ("C10/unsolicited-leaves-bookkeeping-unchanged", 18000),
+            ],
         },
         run,
-        replay: None,
+        replay: Some(replay),
     }
 }
